@@ -225,6 +225,10 @@ def sn_async(rng):
     if k == 2:
         return ("globalThis.__late = globalThis.__late || []; var L=__late; var thenable={ then: function(res){ L.push('thenable'); res(%d) } }; (async function(){ L.push(await thenable); L.push(await (async () => { throw new TypeError('t') })().catch(function(e){ return e.name })) })();"
                 " Promise.allSettled([Promise.reject(1), 2]).then(function(r){ L.push(r.map(function(x){ return x.status })) }); R.push(typeof Promise.prototype.finally);" % v)
+    if k == 3 and rng.random() < 0.5:
+        return ("globalThis.__late = globalThis.__late || []; var L=__late; class MyP extends Promise { then(a,b){ L.push('then-called'); return super.then(a,b) } static get [Symbol.species](){ return Promise } }"
+                " (async function(){ try { var x = await MyP.resolve(%d); L.push(x); await null; throw new RangeError('after-await') } catch(e){ L.push(e.name); return 'caught' } finally { L.push('fin') } })().then(function(v){ L.push(v) });"
+                " (async function(){ lbl: for (var i=0;i<3;i++){ try { await i; if (i===1) break lbl } finally { L.push('f'+i) } } L.push('out'+i) })(); R.push(new MyP(function(r){ r(1) }) instanceof Promise);" % v)
     return ("globalThis.__late = globalThis.__late || []; var L=__late; class Q { #n=%d; async get(){ await null; return this.#n } static async make(){ var q=new Q(); return [await q.get(), #n in q] } } Q.make().then(function(v){ L.push(v) });"
             " var order=[]; Promise.resolve().then(function(){ order.push(1) }).then(function(){ order.push(3); L.push(order) }); Promise.resolve().then(function(){ order.push(2) }); R.push(order.length);" % v)
 
@@ -277,6 +281,33 @@ def sn_loops(rng):
             " var g=(function*(){ try { yield 1; yield 2 } finally { seen.push('cleanup') } })(); for (var y of g){ break } R.push(seen.slice(-1), g.next());" % v)
 
 
+def sn_eval_sites(rng):
+    """a direct sloppy eval declaring a var in every kind of scope position; __probe(1) (installed by the harness) renders
+    the run-time scope chain and the stash bindVars targets — it must own its names map (Names.lean hOK)."""
+    v = rng.randrange(100)
+    E = "eval('var dyn%d = %d; __probe(1)')" % (v, v)
+    forms = [
+        "function f(){ var a=1; return [%s, typeof dyn%d] } R.push(f(), f());" % (E, v),
+        "var f=() => { let b=2; return [%s, typeof dyn%d] }; R.push(f(), f());" % (E, v),
+        "var o={ m(x){ { let c=x; var g=function(){ return c }; return [%s, g(), typeof dyn%d] } } }; R.push(o.m(1), o.m(2));" % (E, v),
+        "function* gen(){ var r=%s; yield r; yield typeof dyn%d } R.push([...gen()], [...gen()]);" % (E, v),
+        "function f(a = %s, b = typeof dyn%d){ return [a, b] } R.push(f(), f());" % (E, v),
+        "function f(a = %s, h = function(){ return a }){ var a2 = 5; return [a, h(), typeof dyn%d] } R.push(f(), f());" % (E, v),
+        "function f(a = () => b, b = %s){ return [typeof a(), typeof dyn%d] } R.push(f(), f());" % (E, v),
+        "function f(){ try { throw 1 } catch(e){ var k=function(){ return e }; return [%s, k(), typeof dyn%d] } } R.push(f(), f());" % (E, v),
+        "function f(){ var out=[]; for (let i=0;i<2;i++){ var h=function(){ return i }; out.push(%s, h()) } return [out, typeof dyn%d] } R.push(f(), f());" % (E, v),
+        "function f(o){ with(o){ return [%s, typeof dyn%d] } } R.push(f({}), f({x:1}));" % (E, v),
+        "function outer(){ var z=1; function inner(){ return [%s, typeof dyn%d, z] } return [inner(), typeof dyn%d] } R.push(outer(), outer());" % (E, v, v),
+        "function f(){ return (function(){ return arguments.length })(1,2) + ':' + %s + ':' + typeof dyn%d } R.push(f(), f());" % (E, v),
+        "globalThis.__late = globalThis.__late || []; (async function af(){ var r=%s; await null; __late.push(r, typeof dyn%d) })(); R.push('q');" % (E, v),
+        "class C { m(){ return (function(){ 'use strict'; return 0 })() } static s(){ return eval('var strictLocal = 1; __probe(0)') } } R.push(C.s(), typeof strictLocal);",
+        "function f(){ var r1=%s; var r2=eval('var second%d = 2; __probe(1)'); return [r1, r2, delete dyn%d, typeof dyn%d] } R.push(f(), f());" % (E, v, v, v),
+        "var g2=new Function('return ' + JSON.stringify(\"eval('var nf = 1; __probe(1)')\") )(); R.push(typeof g2); R.push((new Function(\"return eval('var nf2 = 1; __probe(1)')\"))());",
+    ]
+    rng.shuffle(forms)
+    return " ".join("(function(){ %s })();" % f for f in forms[:rng.randrange(2, 6)])
+
+
 def sn_symbols(rng):
     v = rng.randrange(9)
     return ("var s=Symbol('d%d'), o={ [s]: 1, [Symbol.toStringTag]: 'Tagged', [Symbol.toPrimitive](h){ return h==='number' ? %d : 'prim' } }; class It { *[Symbol.iterator](){ yield 1; yield 2 } static [Symbol.hasInstance](x){ return x===1 } get [Symbol.toStringTag](){ return 'It' } }"
@@ -286,7 +317,7 @@ def sn_symbols(rng):
 
 SNIPPETS = [(sn_regex_exec, 3), (sn_regex_methods, 3), (sn_regex_fresh, 2), (sn_tagged, 4), (sn_class_private, 3), (sn_dynamic_scope, 4), (sn_constfold, 3),
             (sn_generators, 3), (sn_control, 2), (sn_collections, 2), (sn_strings, 3), (sn_numbers, 1), (sn_funcs, 2),
-            (sn_async, 3), (sn_class_static, 3), (sn_destructuring, 3), (sn_loops, 3), (sn_symbols, 2)]
+            (sn_async, 3), (sn_class_static, 3), (sn_destructuring, 3), (sn_loops, 3), (sn_symbols, 2), (sn_eval_sites, 5)]
 
 
 def gen_snippets(rng, k):
@@ -354,6 +385,9 @@ def gen_vals(rng):
             vals.append({"t": "bool", "b": rng.random() < 0.5})
         else:
             vals.append({"t": rng.choice(["null", "undef", "nan"])})
+    # the same value reachable under two names (same identity twice): the second name must not see a different memo state
+    if len(vals) >= 2 and rng.random() < 0.35:
+        vals.append({"t": "same", "i": rng.randrange(len(vals))})
     # make sure at least one lazily scanned string is present in most cases
     if not any(v["t"] in ("gostr", "concat", "short", "json") for v in vals) and rng.random() < 0.9:
         vals[0] = {"t": "gostr", "hex": hexs(rand_bytes_utf8ish(rng, 24))}
@@ -392,7 +426,7 @@ OBJ_KINDS = ["plain", "array", "func", "arrow", "proxy", "date", "regexp", "symo
 PATHS = ["ToValue", "Set", "ObjectSet", "SymbolSet", "NewArray", "SliceElem", "MapElem", "StructField", "FuncReturn", "FuncReturnIface",
          # values nested in Go containers are converted lazily, element by element, on every way of reading them
          "SliceOfObj", "SliceOfValue", "ArrayElem", "MapOfObj", "NestedSlice", "SliceForOf", "SliceSpread", "SliceMethod", "SliceValues",
-         "MultiReturn", "MultiReturnIface", "StructIfaceField", "PtrToSlice", "CallArg"]
+         "MultiReturn", "MultiReturnIface", "StructIfaceField", "PtrToSlice", "CallArg", "SliceSpareCap", "SliceTwice"]
 
 
 def tv_line(kind, same):
@@ -758,9 +792,9 @@ def main(ctx):
             # data) were just re-checked by `lake build` — the quick tier records them from that build and leaves their axiom
             # audit (one more Lean process that has to import Lean.Elab) to the thorough tier
             with ThreadPoolExecutor(max_workers=3) as ex:
-                fs = [ex.submit(ctx.audit, "GojaModel.C16.Props", 22)]
+                fs = [ex.submit(ctx.audit, "GojaModel.C16.Props", 28)]
                 if ctx.tier == "thorough":
-                    fs.append(ex.submit(ctx.audit, "GojaModel.C16.Tie", 13))
+                    fs.append(ex.submit(ctx.audit, "GojaModel.C16.Tie", 18))
                     fs.append(ex.submit(ctx.leanchecker, "GojaModel.C16.Props"))
                 for f in fs:
                     f.result()
@@ -769,7 +803,7 @@ def main(ctx):
                 names = re.findall(r"^theorem\s+(\S+)", tie_src, re.M)
                 for n in names:
                     ctx.obligation("thm:GojaModel.C16.Tie.%s" % n, "theorem", True, "re-checked by lake build (axiom audit in the thorough tier)")
-                ctx.obligation("tie:theorems-present", "tie", len(names) >= 13, "%d Tie theorems" % len(names))
+                ctx.obligation("tie:theorems-present", "tie", len(names) >= 19, "%d Tie theorems" % len(names))
         ctx.log("lean side done in %.1fs" % (time.time() - t))
         return drv_ok, ok
 
@@ -828,7 +862,15 @@ def main(ctx):
                 ctx.obligation("corr:generator-valid:%d" % i, "correspondence", False, "generated case does not compile: %s" % (a.get("info") or a.get("base")))
                 continue
             if not a.get("ok"):
-                result_viol.append((i, "shared-object-mutated" if a.get("mutated") else "result-differs-from-isolated-run", a))
+                result_viol.append((i, "names-contract-broken" if a.get("contract") else ("shared-object-mutated" if a.get("mutated") else "result-differs-from-isolated-run"), a))
+            if c["kind"] == "prog":
+                n_pr = str(a.get("base", "")).count("|target=")
+                if n_pr:
+                    ctx.stats["stash_probes"] = ctx.stats.get("stash_probes", 0) + n_pr
+                    for m_ in re.finditer(r"([OVB][-so](?:,[OVB][-so])*)\|target=([OVB][-so]|none)", str(a.get("base", ""))):
+                        ctx.stats.setdefault("stash_probe_shapes", {})
+                        k_ = m_.group(0)
+                        ctx.stats["stash_probe_shapes"][k_] = ctx.stats["stash_probe_shapes"].get(k_, 0) + 1
             if str(a.get("info", "")).startswith("timeouts="):
                 ctx.stats["watchdog_timeouts"] = ctx.stats.get("watchdog_timeouts", 0) + int(a["info"].split("=")[1])
             base = str(a.get("base", ""))
